@@ -546,6 +546,13 @@ def parse_equation_terms(equation: str) -> List[Term]:
             f"Failed to find a variable on the left-hand side of: '{equation}'"
         )
 
+    # Error if there is more than one: each would otherwise carry its own copy
+    # of the equation into the model
+    if len([x for x in lhs_terms if x.type == Type.ENDOGENOUS]) > 1:
+        raise ParserError(
+            f"Found more than one variable on the left-hand side of: '{equation}'"
+        )
+
     if any(filter(lambda x: x.type == Type.KEYWORD, lhs_terms)) or any(
         filter(lambda x: x.type == Type.INVALID, rhs_terms)
     ):
